@@ -302,7 +302,23 @@ func c18Run(w *W) {
 		}
 		// a peer is attached: block a call, then the last peer leaves
 		var c *Call
-		if kind == "req" {
+		if kind == "req" && (peerMode == "stalled" || peerMode == "leaving") && w.Choose(simrt.SProg, 2) == 0 {
+			// the only pipe is busy with an earlier request (the stalled peer has
+			// taken one message and reads no more): the next Send blocks
+			for i := 0; i < 4; i++ {
+				c = w.Do(fmt.Sprintf("Send#%d", i), func() (interface{}, error) { return nil, obj.Send([]byte("request")) })
+				w.Settle()
+				if !c.Returned() {
+					break
+				}
+				if c.Err != nil {
+					return
+				}
+			}
+			if c != nil && !c.Returned() {
+				w.Probe("req-send-blocked-by-backpressure")
+			}
+		} else if kind == "req" {
 			sc := w.Do("Send", func() (interface{}, error) { return nil, obj.Send([]byte("request")) })
 			w.Settle()
 			if !sc.Returned() || sc.Err != nil {
